@@ -164,6 +164,24 @@ claim('C06', 'other',
       'CrossHair symbolic execution of the real codecs (confirmations) + SMT validity on the clump loop; symbolic-str '
       'conditions bug-hunting only', 'DESIGN.md 3/C06')
 
+claim('C17', 'model_checking',
+      'Client-object histories (3 operations outside bind(), 2 inside; 4 / 3 thorough) over Synth / Group / ParGroup '
+      'creation with every add action and default-group / server / node / root targets, list and dict arguments, '
+      'set (scalars, arrays, bus and buffer objects), setn, map / mapn / mapa / mapan, fill, run, release, '
+      'move_before / after / to_head / to_tail, free, Buffer allocation (single; 1..4 consecutive), free, double '
+      'free, free_all, Bus allocation / free / set, and sync inside bind(); inside bind() an exception is raised at '
+      'a symbolic position. Everything the objects hand to the OSC interface is recorded and checked against a '
+      'command schema table transcribed from the Server Command Reference (name, count pattern, argument kinds, '
+      'nested lists only as completion blobs) and an id ledger (only own ids; creation carries the own id, action '
+      'and target; free emits exactly the owned ids once; allocator takes numbers back; bus ranges disjoint); a '
+      'bind() block must reach the interface as one bundle per segment between syncs in issue order, nothing after '
+      'an exception. Control values are symbolic reals (argument equalities decided by z3).',
+      _TB + '; finite control (operation, target, variant) is enumerated by the decision tree; the harness plays the '
+      'server for /sync (answers /synced through the receive functions).',
+      'decision-tree model checking of real client objects against a command schema table and id ledger; symbolic '
+      'control values (z3 LRA)',
+      'DESIGN.md 3/C17')
+
 claim('C18', 'model_checking',
       '(a) matcher: for every pattern skeleton "/" + up to 2 (quick) / 3 tokens over literals, ?, *, sets, ranges, '
       'negated sets and alternatives, the regex the real matcher passes to `re` (rewrite table executed, entry point '
